@@ -288,6 +288,8 @@ def c14(tier, seed):
                 cls = f"{e.get('cone')}:{'+'.join(failing[:3]) or ('not_interior_or_unscaled' if not (e.get('interior_accepted') and e.get('scaled_ok')) else 'missing_identity_or_mode_' + str(e.get('pd_mode')))}"
             elif ev == "Membership":
                 cls = f"{e.get('cone')}:membership"
+            elif ev == "ExactBoundary":
+                cls = f"{e.get('cone')}:exact_boundary_{e.get('side')}"
             elif ev == "Lattice":
                 cls = f"{e.get('cone')}:lattice_membership"
             else:
@@ -295,7 +297,7 @@ def c14(tier, seed):
             groups.setdefault(cls, []).append(e)
         for cls, evs in list(groups.items())[:15]:
             e = evs[0]
-            case = {k: e.get(k) for k in ("s", "z", "ds", "dz", "v", "vi", "p", "q", "family") if e.get(k) is not None}
+            case = {k: e.get(k) for k in ("s", "z", "ds", "dz", "v", "vi", "p", "q", "family", "side") if e.get(k) is not None}
             case["cone"] = e.get("cone_spec")
             case["run"] = 0
             payload = {"kind": "conebarrier-replay", "prop": "C14", "event": {k: e[k] for k in e if k not in ("s", "z", "ds", "dz")}, "count": len(evs),
